@@ -56,6 +56,9 @@ type Opt struct {
 	// MaxFiles > 0: run with this soft limit on open file descriptors (ulimit -n), so that behaviour
 	// that depends on descriptor exhaustion does not depend on the machine the check runs on
 	MaxFiles int
+	// MaxMemKB > 0: run with this limit on the address space (ulimit -v, in KiB): input that makes the
+	// command allocate without bound ends in a runtime fault instead of exhausting the machine
+	MaxMemKB int
 }
 
 // Run executes the binary with args. Exit is -1 if killed by a signal.
@@ -71,8 +74,15 @@ func Run(o Opt, args ...string) Result {
 	ctx, cancel := context.WithTimeout(context.Background(), to)
 	defer cancel()
 	cmd := exec.CommandContext(ctx, bin, args...)
-	if o.MaxFiles > 0 {
-		sh := fmt.Sprintf(`ulimit -n %d; exec "$0" "$@"`, o.MaxFiles)
+	if o.MaxFiles > 0 || o.MaxMemKB > 0 {
+		sh := ""
+		if o.MaxFiles > 0 {
+			sh += fmt.Sprintf("ulimit -n %d; ", o.MaxFiles)
+		}
+		if o.MaxMemKB > 0 {
+			sh += fmt.Sprintf("ulimit -v %d; ", o.MaxMemKB)
+		}
+		sh += `exec "$0" "$@"`
 		cmd = exec.CommandContext(ctx, "/bin/sh", append([]string{"-c", sh, bin}, args...)...)
 	}
 	cmd.Dir = o.Dir
